@@ -42,7 +42,7 @@ WITNESS = {
                          "d.insert<c19_w_circle, c19_w_circle>(&c19_w_cc); c19_w_circle c; return d.dispatch(c, c); }",
     "xoptional.hpp": "inline bool c19_w_xoptional() { xtl::xoptional<int> o(3); return (o + o).has_value(); }",
     "xoptional_meta.hpp": "static_assert(!xtl::is_xoptional<int>::value, \"c19 witness\");",
-    "xoptional_sequence.hpp": "inline unsigned long c19_w_xoseq() { xtl::xoptional_vector<int> v(3); return v.size(); }",
+    "xoptional_sequence.hpp": "inline unsigned long c19_w_xoseq() { xtl::xoptional_vector<int> v(3, 1); return v.size(); }",
     "xplatform.hpp": "inline bool c19_w_xplatform() { return xtl::endianness() == xtl::endian::little_endian; }",
     "xproxy_wrapper.hpp": "struct c19_w_proxy { int x; };\ninline int c19_w_xproxy() { auto w = xtl::proxy_wrapper(c19_w_proxy{1}); return w.x; }",
     "xsequence.hpp": "inline unsigned long c19_w_xsequence() { auto s = xtl::make_sequence<std::vector<int> >(3, 1); return s.size(); }",
